@@ -1,0 +1,45 @@
+//go:build verif
+
+package safehtml
+
+import (
+	"reflect"
+	"sort"
+)
+
+// Verification export (add-only, build tag verif): the data the CSS sanitiser is driven by.
+
+// VerifC05Kinds returns, for every entry of cssPropertyNameToValueSanitizer in key order, the
+// property name and which sanitiser it is mapped to ("regular", "enum", "font-family",
+// "background-image", or "unknown" for a function the verification model has no counterpart of).
+func VerifC05Kinds() (names []string, kinds []string) {
+	ptr := func(f func(string) string) uintptr { return reflect.ValueOf(f).Pointer() }
+	known := map[uintptr]string{
+		ptr(sanitizeRegular):         "regular",
+		ptr(sanitizeEnum):            "enum",
+		ptr(sanitizeFontFamily):      "font-family",
+		ptr(sanitizeBackgroundImage): "background-image",
+	}
+	for k := range cssPropertyNameToValueSanitizer {
+		names = append(names, k)
+	}
+	sort.Strings(names)
+	for _, k := range names {
+		kind, ok := known[ptr(cssPropertyNameToValueSanitizer[k])]
+		if !ok {
+			kind = "unknown"
+		}
+		kinds = append(kinds, kind)
+	}
+	return names, kinds
+}
+
+// VerifC05Patterns returns the source text of the four regular expressions.
+func VerifC05Patterns() (identifier, regular, enum, genericFont string) {
+	return identifierPattern.String(), safeRegularPropertyValuePattern.String(), safeEnumPropertyValuePattern.String(), genericFontFamilyName.String()
+}
+
+// VerifC05URLForms returns the url( prefix and suffix tables.
+func VerifC05URLForms() (prefixes, suffixes []string) {
+	return append([]string(nil), validURLPrefixes...), append([]string(nil), validURLSuffixes...)
+}
